@@ -19,3 +19,4 @@ Eval vm_compute in ("self_first_use", filter (fun s => negb (solve_store_before_
 Eval vm_compute in ("module_state", filter (fun s => negb (module_state_ok s)) module_state).
 Eval vm_compute in ("default_args", filter (fun s => negb (default_arg_ok s)) default_args).
 Eval vm_compute in ("inplace_ops", filter (fun s => negb (inplace_ok s)) inplace_ops).
+Eval vm_compute in ("handlers_that_reraise", filter (fun r => negb (handler_swallows handler_bodies r)) swallowing_handlers).
